@@ -14,9 +14,15 @@ import (
 )
 
 type req struct {
-	id string
-	ch chan struct{}
+	id  string
+	ch  chan struct{}
+	seq int // arrival order
 }
+
+// Newest is the decision value that releases the request that arrived last, which is as a rule the next
+// operation of the goroutine that was released last: runs of it let one goroutine go a long way while the
+// others stay parked where they are.
+const Newest = 64
 
 type Sched struct {
 	mu       sync.Mutex
@@ -57,9 +63,9 @@ func (s *Sched) Do(base string, op func()) {
 	s.mu.Lock()
 	n := s.counts[base]
 	s.counts[base]++
-	r := &req{id: fmt.Sprintf("%s#%d", base, n), ch: make(chan struct{})}
-	s.pending[r.id] = r
 	s.arrivals++
+	r := &req{id: fmt.Sprintf("%s#%d", base, n), ch: make(chan struct{}), seq: s.arrivals}
+	s.pending[r.id] = r
 	s.mu.Unlock()
 	<-r.ch
 	defer func() {
@@ -126,8 +132,12 @@ func (s *Sched) Run(finished func() bool) {
 	for s.waitStable(finished) {
 		s.mu.Lock()
 		ids := make([]string, 0, len(s.pending))
-		for id := range s.pending {
+		newest, newestSeq := "", -1
+		for id, r := range s.pending {
 			ids = append(ids, id)
+			if r.seq > newestSeq {
+				newest, newestSeq = id, r.seq
+			}
 		}
 		s.mu.Unlock()
 		sort.Strings(ids)
@@ -142,6 +152,13 @@ func (s *Sched) Run(finished func() bool) {
 			k = s.choices[s.next] % len(ids)
 			if k < 0 {
 				k = -k
+			}
+			if s.choices[s.next] == Newest {
+				for i, id := range ids {
+					if id == newest {
+						k = i
+					}
+				}
 			}
 		}
 		s.next++
